@@ -12,10 +12,10 @@ import (
 // "shared". Each store into a shared cell is logged.
 
 type frameEvent struct {
-	Site     string
-	Changed  bool // the stored value differs from the old one
-	Locked   bool // a sync lock was held
-	What     string
+	Site    string
+	Changed bool // the stored value differs from the old one
+	Locked  bool // a sync lock was held
+	What    string
 }
 
 type frameState struct {
@@ -24,6 +24,11 @@ type frameState struct {
 	events []frameEvent
 	locks  int
 	owner  map[*value]string // description of the owning object (for reports)
+
+	protected      map[*value]bool
+	protMaps       map[*mapv]bool
+	unlockedReads  []string
+	unlockedWrites []string
 }
 
 func (m *Machine) frame() *frameState {
@@ -196,6 +201,68 @@ func registerFrame(m *Machine) {
 			}
 		}
 		return nil
+	}
+	// vProtect(p interface{}): the cell p points to (and a map stored in it) may only be
+	// read or written while a lock is held
+	e[hpkg+"vProtect"] = func(m *Machine, fr *frame, a []value) value {
+		fs := m.frame()
+		if fs == nil {
+			abort("vProtect before vFreeze")
+		}
+		if fs.protected == nil {
+			fs.protected = map[*value]bool{}
+			fs.protMaps = map[*mapv]bool{}
+		}
+		p, ok := a[0].(iface).v.(*value)
+		if !ok || p == nil {
+			abort("vProtect expects a non-nil pointer")
+		}
+		fs.protected[p] = true
+		prevStore, prevMap := m.Hooks.OnStore, m.Hooks.OnMap
+		m.Hooks.OnStore = func(m *Machine, addr *value, old, nw value, fr *frame) {
+			if prevStore != nil {
+				prevStore(m, addr, old, nw, fr)
+			}
+			if fs := m.frame(); fs != nil && fs.protected[addr] && fs.locks == 0 {
+				fs.unlockedWrites = append(fs.unlockedWrites, m.where())
+			}
+		}
+		m.Hooks.OnMap = func(m *Machine, mp *mapv, fr *frame) {
+			if prevMap != nil {
+				prevMap(m, mp, fr)
+			}
+			fs := m.frame()
+			if fs == nil || fs.locks > 0 {
+				return
+			}
+			for c := range fs.protected {
+				if cur, ok := (*c).(*mapv); ok && cur == mp {
+					fs.unlockedWrites = append(fs.unlockedWrites, m.where())
+				}
+			}
+		}
+		m.Hooks.OnLoad = func(m *Machine, addr *value) {
+			fs := m.frame()
+			if fs == nil || !fs.protected[addr] || fs.locks > 0 {
+				return
+			}
+			fs.unlockedReads = append(fs.unlockedReads, m.where())
+		}
+		return nil
+	}
+	e[hpkg+"vUnlockedWrites"] = func(m *Machine, fr *frame, a []value) value {
+		fs := m.frame()
+		if fs == nil {
+			return ""
+		}
+		return strings.Join(fs.unlockedWrites, "; ")
+	}
+	e[hpkg+"vUnlockedReads"] = func(m *Machine, fr *frame, a []value) value {
+		fs := m.frame()
+		if fs == nil {
+			return ""
+		}
+		return strings.Join(fs.unlockedReads, "; ")
 	}
 	// vFrameWrites(mode int) int: number of logged stores; mode 0: value-changing
 	// stores, mode 1: all stores made without a lock held
